@@ -167,7 +167,13 @@ def run_R01_1(model, col, G, vm):
               "operands are not stored in parameter order", IR, init)
     ctor = [c for c in ast.walk(fo) if isinstance(c, ast.Call) and last_attr(c) == "BinaryInstruction"]
     fop = [a.arg for a in fo.args.args]
-    okc = all(len(c.args) == 4 and [unparse(a) for a in c.args[2:]] == fop[-2:] for c in ctor) and bool(ctor)
+    # the table-driven construction keeps (v1, v2); the kind-specific special cases may swap a commutative
+    # scalar/vector multiply but must pass exactly the two operands
+    generic = [c for c in ctor if len(c.args) == 4 and "mapping[" in unparse(c.args[0])]
+    special = [c for c in ctor if c not in generic]
+    okc = bool(generic) and all([unparse(a) for a in c.args[2:]] == fop[-2:] for c in generic) and \
+        all(len(c.args) == 4 and sorted(unparse(a) for a in c.args[2:]) == sorted(fop[-2:]) and
+            ([unparse(a) for a in c.args[2:]] == fop[-2:] or "MUL" in unparse(c.args[0])) for c in special)
     col.check(okc, "R01.1", f"{IR}::BinaryInstruction.FromOperation operand order", f"constructs BinaryInstruction(.., {fop[-2]}, {fop[-1]})",
               "FromOperation does not pass its two operands through in order", IR, fo)
     # v_BinaryExpression passes left, right
